@@ -144,7 +144,7 @@ def step (s : St) (ws : List String) : St × String :=
       | _, _ => (s, "bad-op")
   | ["papply"] =>
       if s.kind != 'c' then (s, dump "bad-op" s) else
-      match applyParams s.ctx s.par with
+      match (if s.isStatic then applyParamsStatic cparams s.ctx s.par else applyParams s.ctx s.par) with
       | .ok c => let s' := { s with ctx := c }; (s', dump "ok" s')
       | .error e => (s, dump (errStr e) s)
   | ["applied", n] =>
